@@ -81,6 +81,10 @@ def operand_order(b, l, r):
     """(left, right) are built as `if on_left {(self.0, other)} else {(other, self.0)}`. With the gamma
     expansion: under on_left != 0 the first operand must be self.0 and the second must not be; under
     on_left == 0 the reverse. Returns 'ok' | 'swapped' | None (not recognised)."""
+    def own(x):
+        # `self.get_price()` of a one-line accessor is `self.0`: the accessor is read, not trusted by its name
+        return render(inline_calls(b.facts, x, depth=1, skip=r'^(?!<?compiler::)'))
+
     def pick(e):
         got = {}
         for a, conds in alternatives(b, e):
@@ -88,12 +92,12 @@ def operand_order(b, l, r):
             flag = [c for c in cs if c.startswith('on_left')]
             if not flag:
                 return None
-            got['T' if flag[-1].endswith('!=[0]') else 'F'] = render(a)
+            got['T' if flag[-1].endswith('!=[0]') else 'F'] = own(a)
         return got
     L, R = pick(l), pick(r)
     if not L or not R or set(L) != {'T', 'F'} or set(R) != {'T', 'F'}:
         # no on_left gating: plain (self, other)
-        ls, rs = render(l), render(r)
+        ls, rs = own(l), own(r)
         if ls == 'self.0' and rs != 'self.0':
             return 'ok'
         if rs == 'self.0' and ls != 'self.0':
